@@ -3,7 +3,7 @@
 Model: coq/Model/GraphM.v (adjacency reading of shortest_path(directed=False, unweighted=True), hop
 metric, components, first largest component, restriction of rows AND columns, pair/collection
 dispatch) on top of Model/MGHM.v (C05).  Each case passes one graph pair in several representations
-(nested lists / dense / csr / csc / lil / coo / dok / dia / bsr matrices and csr / coo / csc sparse arrays; upper, lower, mixed, symmetric, weighted; relabelled) or a
+(nested lists / dense / csr / csc / lil / coo / dok / dia / bsr matrices and csr / coo / csc sparse arrays, Fortran-ordered float / bool / int dense arrays; upper, lower, mixed, symmetric, weighted; relabelled) or a
 collection of 1-5 graphs to persim.gromov_hausdorff; distance matrices, warnings, exceptions and
 lower bounds are compared with the model inside Coq (Corr/GraphCorr.v), and the spec (own BFS,
 components, brute-force mGH) is evaluated on the outputs independently of the model."""
@@ -86,7 +86,9 @@ def _any_graph(rng, pdis, lo=1, hi=7):
 ENCODINGS = ["upper", "lower", "mixed", "symmetric", "weighted"]
 # every container / sparsity format; coo, dok, dia, bsr and the sparse arrays raised ValueError inside scipy's csgraph
 # before /repo d1032fb converted sparse input with .tocsr()
-FORMATS = ["list", "dense", "csr", "csc", "lil", "csr_array", "coo", "dok", "dia", "bsr", "coo_array", "csc_array"]
+# dense_*_F: Fortran-ordered (non-C-contiguous) dense arrays, as produced by transposing or relabelling A[p][:, p]
+FORMATS = ["list", "dense", "csr", "csc", "lil", "csr_array", "coo", "dok", "dia", "bsr", "coo_array", "csc_array",
+           "dense_float_F", "dense_bool_F", "dense_int_F", "dense_float"]
 
 
 def _encode(rng, A, enc, perm):
@@ -244,6 +246,10 @@ def impl_run(cases):
             return [list(r) for r in A]
         if fmt == "dense":
             return a
+        if fmt.startswith("dense_"):
+            dt = {"float": float, "bool": bool, "int": int}[fmt.split("_")[1]]
+            b = (a != 0).astype(dt) if dt is bool else a.astype(dt)
+            return b.T.copy().T if fmt.endswith("_F") else b       # same content, column-major memory layout
         return {"csr": sps.csr_matrix, "csc": sps.csc_matrix, "lil": sps.lil_matrix, "csr_array": sps.csr_array,
                 "coo": sps.coo_matrix, "dok": sps.dok_matrix, "dia": sps.dia_matrix, "bsr": sps.bsr_matrix,
                 "coo_array": sps.coo_array, "csc_array": sps.csc_array}[fmt](a)
